@@ -136,6 +136,16 @@ func transition(ev *PEvent, st *PState, stats *core.Stats) {
 		if ev.Err != nil && out != "nil" {
 			out = "error"
 		}
+	case "wparse":
+		op = "Wrap.Parse"
+		if ev.Nil {
+			op = "Wrap.Parse(nil)"
+		}
+		out = errName(ev.Err)
+		if ev.Err == nil {
+			out = "block"
+		}
+		out += fmt.Sprintf(",%d inner calls", ev.InnerCalls)
 	case "other":
 		op, out = "other instance used", "ok"
 	case "probe":
@@ -144,6 +154,9 @@ func transition(ev *PEvent, st *PState, stats *core.Stats) {
 	}
 	if ev.Panic != nil {
 		out = "panic"
+	}
+	if ev.Wrapped {
+		op += " (called by Wrap)"
 	}
 	stats.Tr(stateClass(ev, st), op, out)
 }
